@@ -248,7 +248,14 @@ class Inductor(Entity):
 
         # Schedule poll after one smoothed interval
         wait_s = self._smoothed_interval if self._smoothed_interval else 0.01
-        poll_time = now + Duration.from_seconds(wait_s)
+        wait = Duration.from_seconds(wait_s)
+        # Guard: a smoothed interval below one nanosecond truncates to a zero
+        # wait; the poll would then find no time elapsed and re-schedule itself
+        # at the same instant forever. Ensure progress (same guard as the
+        # rate limiter policies' time_until_available).
+        if wait == Duration.ZERO:
+            wait = Duration(1)
+        poll_time = now + wait
         return [
             Event(
                 time=poll_time,
